@@ -1,5 +1,6 @@
 import Aiorpcx.C17.Meets
-import Aiorpcx.Facts.C17
+import Aiorpcx.C17.Recv
+import Aiorpcx.C17.FactsTie
 /-!
 # C17 — the SOCKS handshake outcome depends only on the reply bytes; never over-reads
 
@@ -282,5 +283,208 @@ theorem granted_length {cfg : Cfg} (stream : Bytes) (n : Nat)
                   | refusedCut => rw [hc] at h; simp [Spec.Verdict.shift] at h
                   | bad => rw [hc] at h; simp [Spec.Verdict.shift] at h
           · simp at h
+
+/-- **Exact consumption, request by request** (with `recv_conservation` and
+    `recv_within_handshake` of `Recv.lean`): in a granted handshake of `n` bytes the `recv`
+    calls return exactly `n` bytes in total, and each call asks for at least 1 byte and at most
+    the number of handshake bytes still outstanding when it is made. -/
+theorem recv_sizes_bounded {cfg : Cfg} (hg : GoodCfg cfg) (oracle : Nat → Nat) (stream : Bytes)
+    (idx n : Nat) (hv : verdictFor cfg stream = .granted n) :
+    let r := handshake oracle (Client.init cfg) ⟨stream, idx⟩
+    sumN r.recvs = n ∧
+    ∀ pre k got post, r.recvs = pre ++ (k, got) :: post →
+      1 ≤ k ∧ got ≤ k ∧ k ≤ n - sumN pre := by
+  have h := outcome_spec hg oracle stream idx
+  rw [hv] at h
+  obtain ⟨hok, hn, hun⟩ := h
+  have hc := recv_conservation oracle (Client.init cfg) ⟨stream, idx⟩
+  have hsum : sumN (handshake oracle (Client.init cfg) ⟨stream, idx⟩).recvs = n := by
+    simp only [refOf] at hun
+    rw [hun] at hc
+    simp only [List.length_drop] at hc
+    omega
+  refine ⟨hsum, ?_⟩
+  intro pre k got post hsplit
+  have := recv_within_handshake oracle (Client.init cfg) ⟨stream, idx⟩ hok pre k got post hsplit
+  rw [hsum] at this
+  omega
+
+/-! ## `_connect_one` and `_detect_proxy` -/
+
+/-- how one `getaddrinfo` entry ends: `OSError` from `sock_connect`, or the handshake's outcome -/
+def attemptOutcome (cfg : Cfg) : Attempt → Option PyExc
+  | .connectFails => some .osError
+  | .talks s o => (handshake o (Client.init cfg) ⟨s, 0⟩).outcome
+
+def isSuccess (cfg : Cfg) (a : Attempt) : Bool := (attemptOutcome cfg a).isNone
+
+/-- the exception `_connect_one` is left holding after trying all entries -/
+def lastExc (cfg : Cfg) : List Attempt → Option PyExc → Option PyExc
+  | [], l => l
+  | a :: as, _ => lastExc cfg as (attemptOutcome cfg a)
+
+theorem lastExc_getLast (cfg : Cfg) : ∀ (as : List Attempt) (l : Option PyExc) (h : as ≠ []),
+    lastExc cfg as l = attemptOutcome cfg (as.getLast h)
+  | [a], l, _ => rfl
+  | a :: b :: as, l, _ => by
+    have := lastExc_getLast cfg (b :: as) (attemptOutcome cfg a) (by simp)
+    simpa [lastExc, List.getLast_cons_cons] using this
+
+theorem attemptOutcome_good {cfg : Cfg} (hg : GoodCfg cfg) (a : Attempt) :
+    attemptOutcome cfg a = none ∨ ∃ e, attemptOutcome cfg a = some e ∧ isCaught e = true := by
+  cases a with
+  | connectFails => exact Or.inr ⟨_, rfl, rfl⟩
+  | talks s o =>
+    rcases no_other_exception hg o s 0 with h | h | h
+    · exact Or.inl h
+    · exact Or.inr ⟨_, h, rfl⟩
+    · exact Or.inr ⟨_, h, rfl⟩
+
+/-- `_connect_one` returns a socket iff some entry's handshake succeeds (the first such entry
+    ends the loop); otherwise it returns the exception of the last entry; nothing escapes. -/
+theorem connectOne_spec {cfg : Cfg} (hg : GoodCfg cfg) :
+    ∀ (as : List Attempt) (i : Nat) (last : Option PyExc),
+      match connectOne (.ok cfg) as i last with
+      | .sock _ _ => as.any (isSuccess cfg) = true
+      | .returned e => as.any (isSuccess cfg) = false ∧ lastExc cfg as last = some e
+      | .escaped _ => as = [] ∧ last = none
+  | [], i, none => by simp [connectOne]
+  | [], i, some e => by simp [connectOne, lastExc]
+  | a :: as, i, last => by
+    have ih := fun l => connectOne_spec hg as (i + 1) l
+    cases a with
+    | connectFails =>
+      have := ih (some .osError)
+      simp only [connectOne]
+      split <;> rename_i heq <;> rw [heq] at this
+      · simpa [isSuccess, attemptOutcome] using this
+      · simpa [isSuccess, attemptOutcome, lastExc] using this
+      · simp at this
+    | talks s o =>
+      simp only [connectOne]
+      rcases attemptOutcome_good hg (.talks s o) with h | ⟨e, h, hc⟩
+      · simp only [attemptOutcome] at h
+        simp [h, isSuccess, attemptOutcome]
+      · simp only [attemptOutcome] at h
+        simp only [h, hc, if_true]
+        have := ih (some e)
+        split <;> rename_i heq <;> rw [heq] at this
+        · simpa [isSuccess, attemptOutcome, h] using this
+        · simpa [isSuccess, attemptOutcome, h, lastExc] using this
+        · simp at this
+
+/-- the protocol object `_detect_proxy` builds -/
+def detectCfg (p : Proto) (a : Auth) : Except PyExc Cfg :=
+  if p = .socks4a then mkCfg p (.name wwwAppleCom) 80 a
+  else mkCfg p (.ipv4 (vec4 8 8 8 8)) 53 a
+
+/-- **Detection verdict.**  `_detect_proxy` answers `True` exactly when some entry's handshake
+    succeeds or the last entry tried ends in `SOCKSFailure` (a proxy that refuses is still a
+    proxy); `False` otherwise; it raises nothing. -/
+theorem detect_verdict (p : Proto) (a : Auth) (cfg : Cfg) (hmk : detectCfg p a = .ok cfg)
+    (hg : GoodCfg cfg) (as : List Attempt) (hne : as ≠ []) :
+    detectProxy p a as =
+      .ok (as.any (isSuccess cfg) ||
+           attemptOutcome cfg (as.getLast hne) == some .socksFailure) := by
+  have hspec := connectOne_spec hg as 0 none
+  have hmk' : (if p = .socks4a then mkCfg p (.name wwwAppleCom) 80 a
+      else mkCfg p (.ipv4 (vec4 8 8 8 8)) 53 a) = .ok cfg := hmk
+  simp only [detectProxy, hmk']
+  split <;> rename_i heq <;> rw [heq] at hspec
+  · simp [hspec]
+  · obtain ⟨h1, h2⟩ := hspec
+    rw [lastExc_getLast cfg as none hne] at h2
+    rw [h1, h2]
+    cases ‹PyExc› <;> rfl
+  · exact absurd hspec.1 hne
+
+/-- the detection destinations are expressible and (for credentials with a UTF-8 form) the
+    resulting object is a `GoodCfg`; for SOCKS5 any accepted credentials will do -/
+theorem detect_cfg_good (p : Proto) (a : Auth) (cfg : Cfg) (hmk : detectCfg p a = .ok cfg)
+    (hu : p ≠ .socks5 → ∃ ub, (match a with | some (u, _) => utf8 u | none => .ok []) = .ok ub) :
+    GoodCfg cfg := by
+  cases p with
+  | socks5 =>
+    simp only [detectCfg, if_neg (show ¬ (Proto.socks5 = Proto.socks4a) by decide)] at hmk
+    unfold mkCfg at hmk
+    simp only at hmk
+    split at hmk
+    · simp at hmk
+    · split at hmk
+      · simp at hmk
+      · rename_i ab ms ha
+        simp at hmk
+        subst hmk
+        cases a with
+        | none =>
+          simp [socks5Authentication] at ha
+          obtain ⟨_, rfl⟩ := ha
+          exact GoodCfg.s5 _ _ false
+        | some up =>
+          obtain ⟨u, pw⟩ := up
+          have : ms = [0, 2] := by
+            simp only [socks5Authentication] at ha
+            split at ha
+            · simp at ha
+            · split at ha
+              · simp at ha
+              · split at ha
+                · simp at ha
+                · split at ha
+                  · simp at ha
+                  · simp at ha; exact ha.2.symm
+          subst this
+          exact GoodCfg.s5 _ _ true
+  | socks4 =>
+    obtain ⟨ub, hub⟩ := hu (by decide)
+    simp only [detectCfg, if_neg (show ¬ (Proto.socks4 = Proto.socks4a) by decide)] at hmk
+    have : cfg = .s4 (.ipv4 (vec4 8 8 8 8)) 53 a := by
+      unfold mkCfg at hmk
+      simp only at hmk
+      split at hmk
+      · simp at hmk
+      · simp at hmk; exact hmk.symm
+    subst this
+    cases a with
+    | none => exact GoodCfg.s4 _ _ _ _ (by simp [socks4Start, packH]; rfl)
+    | some up =>
+      obtain ⟨u, pw⟩ := up
+      simp only at hub
+      exact GoodCfg.s4 _ _ _ _ (by simp [socks4Start, hub, packH]; rfl)
+  | socks4a =>
+    obtain ⟨ub, hub⟩ := hu (by decide)
+    simp only [detectCfg, if_true] at hmk
+    have : cfg = .s4 (.name wwwAppleCom) 80 a := by
+      unfold mkCfg at hmk
+      simp only at hmk
+      split at hmk
+      · simp at hmk
+      · simp at hmk; exact hmk.symm
+    subst this
+    have hh : utf8 wwwAppleCom = .ok (wwwAppleCom.map Nat.toUInt8) := by decide
+    cases a with
+    | none => exact GoodCfg.s4 _ _ _ _ (by simp [socks4Start, hh, packH]; rfl)
+    | some up =>
+      obtain ⟨u, pw⟩ := up
+      simp only at hub
+      exact GoodCfg.s4 _ _ _ _ (by simp [socks4Start, hub, hh, packH]; rfl)
+
+/-! ## non-vacuity: concrete reply streams of each kind -/
+
+example : verdictFor cfg5n [5, 0, 5, 0, 0, 3, 2, 104, 105, 0, 80, 0x16, 0x03] = .granted 11 := by
+  decide
+example : verdictFor cfg5a [5, 2, 1, 0, 5, 0, 0, 1, 1, 2, 3, 4, 0, 80] = .granted 14 := by decide
+example : verdictFor cfg5a [5, 2, 1, 1] = .refused := by decide
+example : verdictFor cfg5n [5, 2] = .refused := by decide
+example : verdictFor cfg5n [5, 0, 5, 5, 0, 1, 0, 0, 0, 0, 0, 0] = .refused := by decide
+example : verdictFor cfg5n [5, 0, 5, 5, 0, 1, 0] = .refusedCut := by decide
+example : verdictFor cfg5n [5, 0, 5, 0, 1, 1, 0, 0, 0, 0, 0, 0] = .bad := by decide
+example : verdictFor cfg5n [5, 0, 5, 0, 0, 1, 0, 0, 0] = .bad := by decide
+example : verdictFor cfg4 [0, 90, 0, 0, 0, 0, 0, 0, 0x16] = .granted 8 := by decide
+example : verdictFor cfg4 [0, 91, 0, 0, 0, 0, 0, 0] = .refused := by decide
+example : verdictFor cfg4 [0, 90, 0, 0] = .bad := by decide
+example : GoodCfg cfg4 := GoodCfg.s4 _ _ _ _ (by decide : socks4Start _ _ _ = .ok [4, 1, 0, 80, 1, 2, 3, 4, 0])
+example : GoodCfg cfg5n := GoodCfg.s5 _ _ false
+example : GoodCfg cfg5a := GoodCfg.s5 _ _ true
 
 end Aiorpcx.C17
